@@ -58,7 +58,9 @@ func hasContract(fn *ssa.Function) bool {
 }
 
 // definitelyNonNilErr: the error value cannot be nil.
-func definitelyNonNilErr(v ssa.Value, at *ssa.BasicBlock) bool {
+func definitelyNonNilErr(v ssa.Value, at *ssa.BasicBlock) bool { return definitelyNonNilErrD(v, at, 0) }
+
+func definitelyNonNilErrD(v ssa.Value, at *ssa.BasicBlock, depth int) bool {
 	switch x := v.(type) {
 	case *ssa.Const:
 		return false
@@ -76,6 +78,21 @@ func definitelyNonNilErr(v ssa.Value, at *ssa.BasicBlock) bool {
 			if fnPkgPath(f) == "fmt" && n == "Errorf" || fnPkgPath(f) == "errors" && n == "New" || strings.HasPrefix(n, "new") && strings.Contains(n, "Exception") ||
 				strings.HasPrefix(n, "newTypeMismatch") || n == "NewProtocolException" {
 				return true
+			}
+			// a module helper all of whose returns are definite errors (an error constructor)
+			if f.Blocks != nil && depth < 2 && isErrorType(x.Type()) {
+				all, nret := true, 0
+				for _, fb := range f.Blocks {
+					if ret, ok := fb.Instrs[len(fb.Instrs)-1].(*ssa.Return); ok && len(ret.Results) == 1 {
+						nret++
+						if !definitelyNonNilErrD(unspill(ret.Results[0], fb), fb, depth+1) {
+							all = false
+						}
+					}
+				}
+				if all && nret > 0 {
+					return true
+				}
 			}
 		}
 	}
